@@ -197,17 +197,42 @@ Definition nm_sub (names : list (N * N)) (h p : attrs) : bool :=
 Definition em_sub (eattr : option N) (h p : attrs) : bool :=
   match eattr with None => true | Some k => opt_eqb (get k h) (get k p) end.
 
-Definition sub_filter (names : list (N * N)) (eattr : option N) (child parent : graph) : bool :=
+(** node_comparator / edge_comparator: operator.eq by default, or a caller-supplied callable; the modelled family is
+    "accept everything", a symmetric wildcard value, and a wildcard that counts on the pattern (child) side only.
+    Called as cmp(parent value, child value), like generic_node_match / generic_edge_match do. *)
+Inductive cmp := CEq | CAny | CWild (w : N) | CPatWild (w : N).
+Definition cmpb (c : cmp) (h p : N) : bool :=
+  match c with
+  | CEq => N.eqb h p
+  | CAny => true
+  | CWild w => N.eqb h p || N.eqb h w || N.eqb p w
+  | CPatWild w => N.eqb h p || N.eqb p w
+  end.
+Definition cmpo (c : cmp) (h p : option N) : bool :=
+  match c with
+  | CEq => opt_eqb h p
+  | CAny => true
+  | CWild w => opt_eqb h p || opt_eqb h (Some w) || opt_eqb p (Some w)
+  | CPatWild w => opt_eqb h p || opt_eqb p (Some w)
+  end.
+Definition nm_subc (c : cmp) (names : list (N * N)) (h p : attrs) : bool :=
+  forallb (fun kd => cmpb c (getd (fst kd) (snd kd) h) (getd (fst kd) (snd kd) p)) names.
+Definition em_subc (c : cmp) (eattr : option N) (h p : attrs) : bool :=
+  match eattr with None => true | Some k => cmpo c (get k h) (get k p) end.
+
+(** use_filter: counts, then (repaired: with the SAME comparators as the search) every child node label combination occurs on some
+    parent node and every child edge label on some parent edge *)
+Definition sub_filter (nc ec : cmp) (names : list (N * N)) (eattr : option N) (child parent : graph) : bool :=
   if (n_nodes parent <? n_nodes child) || (n_edges parent <? n_edges child) then false
-  else if negb (forallb (fun cn => existsb (fun pn => nm_sub names (snd pn) (snd cn)) (gnodes parent)) (gnodes child)) then false
+  else if negb (forallb (fun cn => existsb (fun pn => nm_subc nc names (snd pn) (snd cn)) (gnodes parent)) (gnodes child)) then false
   else match eattr with
        | None => true
-       | Some k => forallb (fun ce => existsb (fun pe => opt_eqb (get k (snd pe)) (get k (snd ce))) (gedges parent)) (gedges child)
+       | Some k => forallb (fun ce => existsb (fun pe => cmpo ec (get k (snd pe)) (get k (snd ce))) (gedges parent)) (gedges child)
        end.
 
-Definition sub_iso (use_filter induced : bool) (names : list (N * N)) (eattr : option N) (child parent : graph) : bool :=
-  if use_filter && negb (sub_filter names eattr child parent) then false
-  else vf2b induced (nm_sub names) (em_sub eattr) parent child.
+Definition sub_iso (use_filter induced : bool) (nc ec : cmp) (names : list (N * N)) (eattr : option N) (child parent : graph) : bool :=
+  if use_filter && negb (sub_filter nc ec names eattr child parent) then false
+  else vf2b induced (nm_subc nc names) (em_subc ec eattr) parent child.
 
 (** ---------- graph_morphism.graph_isomorphism(use_defaults=True) ---------- *)
 Definition giso (dstar dzero done : N) (g1 g2 : graph) : bool :=
@@ -237,7 +262,7 @@ Inductive query :=
 | QIso (e i j : nat)
 | QMaps (e host pattern : nat)
 | QPre (e host pattern : nat)
-| QSub (gm : bool) (child parent : nat) (use_filter induced : bool) (names : list (N * N)) (eattr : option N)
+| QSub (gm : bool) (child parent : nat) (use_filter induced : bool) (nc ec : cmp) (names : list (N * N)) (eattr : option N)
 | QGiso (i j : nat) (dstar dzero done : N)
 | QGiso0 (i j : nat)
 | QFgi (i j : nat) (use_defaults fast : bool) (dstar dzero done : N).
@@ -260,7 +285,7 @@ Definition step (gs : list graph) (es : list engine) (q : query) (c : cache) : t
   | QMaps e h p =>
       let '(l, c') := get_mappings (enth es e) h (gnth gs h) p (gnth gs p) c in
       (L [tnat (length l); tset tmapping (if determined (enth es e) (gnth gs h) (gnth gs p) then l else [])], c')
-  | QSub _ ch pa f ind names eattr => (tbool (sub_iso f ind names eattr (gnth gs ch) (gnth gs pa)), c)
+  | QSub _ ch pa f ind nc ec names eattr => (tbool (sub_iso f ind nc ec names eattr (gnth gs ch) (gnth gs pa)), c)
   | QGiso i j a b d => (tbool (giso a b d (gnth gs i) (gnth gs j)), c)
   | QGiso0 i j => (tbool (giso0 (gnth gs i) (gnth gs j)), c)
   | QFgi i j ud fa a b d => (tbool (fgi ud fa a b d (gnth gs i) (gnth gs j)), c)
